@@ -75,6 +75,9 @@ func classOf(msg string) string {
 		{"slice bounds out of range", "slice-oob"},
 		{"insufficient funds", "insufficient-funds"},
 		{"invalid coins", "invalid-coins"},
+		{"not allowed staking token", "not-allowed-staking-token"},
+		{"not an active validator", "not-active-validator"},
+		{"action not supported for slashed pool", "slashed-pool"},
 		{"decoding bech32 failed", "invalid-bech32"},
 		{"empty address string", "invalid-bech32"},
 		{"no concrete type registered", "any-unregistered-type"},
